@@ -39,7 +39,7 @@ TLSVER = {f"TlsVersion.{a}": (f"{VER}.{b}", VER) for a, b in
 # one generated file per group (`lean/TLX/Gen/Translated/<Group>.lean`): a definition that no longer elaborates, or a
 # function that left the subset, only blocks the theorems of its own group
 GROUPS = {
-    "Pn": dict(imports=["TLX.PyRt"], decls=[]),
+    "Pn": dict(imports=["TLX.PyRt", "TLX.Quic.Packet"], decls=[]),
     "Varint": dict(imports=["TLX.PyRt"], decls=[]),
     "QuicDissect": dict(imports=["TLX.PyRt", "TLX.Quic.Packet", "TLX.MainLoop"], decls=[]),
     "QuicSess": dict(imports=["TLX.PyRt", "TLX.Quic.Session"], decls=[]),
@@ -63,6 +63,16 @@ SPECS = [
          places=[("quic_packet.isserver", "isserver", "Bool", "r"), ("quic_packet.packet_num", "packet_num", "Bytes", "r"),
                  ("self.packet_number_server[PACKET_TYPE_MAP[quic_packet.packet_type]]", "pn_server", "Int", "rw"),
                  ("self.packet_number_client[PACKET_TYPE_MAP[quic_packet.packet_type]]", "pn_client", "Int", "rw")]),
+    # the tables the places of get_full_packet_number are read from: PACKET_TYPE_MAP and the two dicts of
+    # set_packet_number_spaces (dict displays of enum members, tuples and ints: emitted as association lists)
+    dict(name="PACKET_TYPE_MAP", group="Pn", kind="table", file="tlexport/quic/quic_session.py", func=None,
+         target="PACKET_TYPE_MAP", type=f"List ({PT} × List {PT})", consts=PTYPE, theorem="packet_number_spaces_eq_model"),
+    dict(name="packet_number_server_init", group="Pn", kind="table", file="tlexport/quic/quic_session.py",
+         func="QuicSession.set_packet_number_spaces", target="self.packet_number_server", type=f"List (List {PT} × Int)",
+         consts=PTYPE, theorem="packet_number_spaces_eq_model"),
+    dict(name="packet_number_client_init", group="Pn", kind="table", file="tlexport/quic/quic_session.py",
+         func="QuicSession.set_packet_number_spaces", target="self.packet_number_client", type=f"List (List {PT} × Int)",
+         consts=PTYPE, theorem="packet_number_spaces_eq_model"),
     # check_key_epoch: the epoch flip (first statement) and the test of the second `if`; the body of the second `if`
     # calls key_update (cryptography) and is not translated
     dict(name="check_key_epoch_flip", group="QuicSess", file="tlexport/quic/quic_session.py", func="QuicSession.check_key_epoch",
@@ -165,7 +175,15 @@ SPECS = [
                  ("self.default_port", "default_port", "Nat", "rw")]),
 ]
 
-THEOREMS = ["TLX.Props.Translated." + s["name"] + "_eq_model" for s in SPECS]
+def theorem_of(spec):
+    return "TLX.Props.Translated." + spec.get("theorem", spec["name"] + "_eq_model")
+
+
+def _uniq(xs):
+    return list(dict.fromkeys(xs))
+
+
+THEOREMS = _uniq(theorem_of(s) for s in SPECS)
 
 
 def group_modules(groups):
@@ -174,7 +192,7 @@ def group_modules(groups):
 
 
 def group_theorems(groups):
-    return ["TLX.Props.Translated." + s["name"] + "_eq_model" for s in SPECS if s["group"] in groups]
+    return _uniq(theorem_of(s) for s in SPECS if s["group"] in groups)
 
 
 MODULES = group_modules(GROUPS)          # all groups (`TLX.Props.Translated` imports them)
@@ -206,6 +224,42 @@ def repo():
     return fw.REPO
 
 
+def table_term(node, spec, fname):
+    """a dict / tuple / list display of spec constants and int literals as a Lean term (dict → association list in
+    display order; `PyRt.tableGet` looks up the LAST entry of a key, as a dict display keeps the last value)"""
+    k = ast.unparse(node)
+    if k in spec["consts"]:
+        return spec["consts"][k][0]
+    if isinstance(node, ast.Constant) and isinstance(node.value, int) and not isinstance(node.value, bool):
+        return str(node.value) if node.value >= 0 else f"({node.value})"
+    if isinstance(node, (ast.Tuple, ast.List)):
+        return "[" + ", ".join(table_term(e, spec, fname) for e in node.elts) + "]"
+    if isinstance(node, ast.Dict) and all(key is not None for key in node.keys):
+        return "[" + ", ".join(f"({table_term(a, spec, fname)}, {table_term(b, spec, fname)})" for a, b in zip(node.keys, node.values)) + "]"
+    raise Untranslatable(fname, node, "table entry that is not a spec constant, an int literal, a tuple/list or a dict display")
+
+
+def translate_table(tree, text, spec):
+    """`target = <display>`: a module-level assignment (`func=None`) or the one assignment to `target` in a function body"""
+    fname = spec["func"] or "<module>"
+    if spec["func"] is None:
+        body, scope = tree.body, None
+    else:
+        scope = py2lean.find_function(tree, spec["func"])
+        if scope is None:
+            raise Untranslatable(fname, tree, f"function not found in {spec['file']}")
+        body = [n for n in ast.walk(scope) if isinstance(n, ast.stmt)]
+    hits = [n for n in body if isinstance(n, (ast.Assign, ast.AnnAssign))
+            and any(ast.unparse(t) == spec["target"] for t in (n.targets if isinstance(n, ast.Assign) else [n.target]))]
+    if len(hits) != 1 or (isinstance(hits[0], ast.Assign) and len(hits[0].targets) != 1) or hits[0].value is None:
+        raise Untranslatable(fname, scope or tree, f"{len(hits)} assignments to `{spec['target']}` (exactly one plain assignment expected)")
+    st = hits[0]
+    seg = "\n".join(text.splitlines()[st.lineno - 1:st.end_lineno])
+    h = hashlib.sha256(seg.encode()).hexdigest()[:16]
+    return (f"/- `{spec['target']}` ({fname}): {spec['file']} lines {st.lineno}-{st.end_lineno}, sha256[:16] of the source text {h} -/\n"
+            f"def {spec['name']} : {spec['type']} :=\n  {table_term(st.value, spec, fname)}\n")
+
+
 def translate_all(root, specs=None):
     """→ ({file name under lean/TLX/Gen: Lean text}, problems); each problem names its group"""
     specs = SPECS if specs is None else specs
@@ -220,6 +274,9 @@ def translate_all(root, specs=None):
                 text = open(path).read()
                 cache[path] = (text, ast.parse(text))
             text, tree = cache[path]
+            if spec.get("kind") == "table":
+                out.append(translate_table(tree, text, spec))
+                continue
             fn = py2lean.find_function(tree, spec["func"])
             if fn is None:
                 raise Untranslatable(spec["func"], tree, f"function not found in {spec['file']}")
@@ -229,7 +286,7 @@ def translate_all(root, specs=None):
             out.append(f"/- `{spec['func']}`: {spec['file']} lines {lo}-{hi}{sel}, sha256[:16] of the source text {h} -/")
             out.append(lean)
         except Untranslatable as e:
-            problems.append({"kind": "translator", "group": spec["group"], "function": spec["func"], "file": spec["file"],
+            problems.append({"kind": "translator", "group": spec["group"], "function": spec["func"] or spec.get("target"), "file": spec["file"],
                              "lean": spec["name"], "line": getattr(e.node, "lineno", None), "reason": e.reason, "error": str(e)})
             out.append(f"/- `{spec['func']}` ({spec['file']}) is OUTSIDE THE SUBSET now: {str(e).replace('-/', '- /')} -/\n")
         except (OSError, SyntaxError) as e:
